@@ -1,5 +1,6 @@
 (* Props/C12.v — property C12: summary counters equal what the event stream contains. *)
 From CV Require Import Model.Base Model.Events Model.Stats Model.StatsSpec Proofs.BaseP Proofs.StatsP Proofs.StatsP2.
+From CV Require Model.Contract Model.Pipeline Proofs.StatsP3.
 
 (* features, rules, the four step counters, parsing errors and hook errors are the numbers of
    matching events before run-Finished — for EVERY event list, contract-abiding or not *)
@@ -59,3 +60,30 @@ Example C12_nonvacuous :
   spec_counts (map snd es) = [1; 0; 1; 0; 0; 0; 1; 0; 0; 0; 0; 0] /\
   n_passed (sm_scenarios (sm_final (fun _ => Some 9) es)) = 1.
 Proof. vm_compute. split; reflexivity. Qed.
+
+(* THE SUMMARY BEHIND NORMALIZE (the default pipeline Normalize<Summarize<..>>), ON THE RAW STREAM: for every complete
+   raw stream obeying the Runner contract — any interleaving — all TWELVE numbers of the summary equal the specification
+   computed on the RAW stream, under the hypotheses of C12_scenario_counters stated on the raw stream. StatsP3 shows
+   that the specification and every hypothesis only depend on per-scenario-path projections and on the multiset of
+   events, and proves that Normalize preserves the order of events PER PATH (all attempts of a scenario), a
+   strengthening of the per-attempt statement of C11 that needs a new queue-order invariant. *)
+Theorem C12_summary_behind_normalize_is_the_spec :
+  forall tags_of last_own steps_of q es,
+    Contract.contract (map snd es) = true ->
+    let evs := before_finished (map snd es) in
+    k12_class last_own steps_of (map snd es) = 0 ->
+    retry_consistent evs = true ->
+    wf_attempts steps_of evs = true ->
+    last_own_consistent last_own steps_of evs = true ->
+    Pipeline.summary_nums (StatsP3.summ_behind_norm (Pipeline.qfinal tags_of last_own (Pipeline.QNorm (Pipeline.QSumm q)) es))
+    = spec_counts (map snd es).
+Proof. exact StatsP3.summary_behind_normalize_is_spec. Qed.
+Print Assumptions C12_summary_behind_normalize_is_the_spec.
+
+(* the eight stateless counters need no hypothesis beyond the contract *)
+Theorem C12_stateless_counters_behind_normalize :
+  forall tags_of last_own q es, Contract.contract (map snd es) = true ->
+    core_of (StatsP3.summ_behind_norm (Pipeline.qfinal tags_of last_own (Pipeline.QNorm (Pipeline.QSumm q)) es))
+    = core_count (before_finished (map snd es)).
+Proof. exact StatsP3.summary_core_behind_normalize. Qed.
+Print Assumptions C12_stateless_counters_behind_normalize.
